@@ -2,6 +2,7 @@ package main
 
 import (
 	"fmt"
+	"go/ast"
 	"go/token"
 	"go/types"
 	"strings"
@@ -282,10 +283,7 @@ func (t *FnTrans) termOf(v Val, sv ssa.Value) string {
 			return v.P.Ref
 		case "field":
 			// address of a struct embedded by value (or of a scalar field): injective function of the owner
-			f := q("addr$" + v.P.Comp)
-			t.declareFun(f, []string{"Int"}, "Int")
-			t.abstr["interior-pointer:"+v.P.Comp] = true
-			return app(f, v.P.Ref)
+			return t.addrTerm(v.P)
 		}
 	}
 	name := "?"
@@ -454,9 +452,70 @@ func (t *FnTrans) loopEnv(b *ssa.BasicBlock, st *State, phiOverride func(*ssa.Ph
 				return SVal{S: v.S, T: T, Sort: t.sortOf(T)}, true
 			}
 		}
-		return t.localAt(name, b, st)
+		if v, ok := t.localAt(name, b, st); ok {
+			if phiOverride != nil {
+				for _, in := range b.Instrs {
+					phi, isPhi := in.(*ssa.Phi)
+					if !isPhi {
+						break
+					}
+					if pv, has := t.vals[phi]; has && pv.S == v.S {
+						v.S = phiOverride(phi).S
+					}
+				}
+			}
+			return v, true
+		}
+		// range-over-int loops: the loop variable is the hidden iteration counter of the header
+		for _, in := range b.Instrs {
+			phi, ok := in.(*ssa.Phi)
+			if !ok {
+				break
+			}
+			if phi.Comment == "rangeint.iter" && t.rangeIntVar(b) == name {
+				v := t.vals[phi]
+				if phiOverride != nil {
+					v = phiOverride(phi)
+				}
+				T := t.resolve(phi.Type())
+				return SVal{S: v.S, T: T, Sort: t.sortOf(T)}, true
+			}
+		}
+		return SVal{}, false
 	}
 	return env
+}
+
+// rangeIntVar: source name of the variable of the `for v := range n` loop whose body starts at b.
+func (t *FnTrans) rangeIntVar(b *ssa.BasicBlock) string {
+	if t.fn.Syntax() == nil {
+		return ""
+	}
+	var pos token.Pos
+	for _, in := range b.Instrs {
+		if _, isPhi := in.(*ssa.Phi); isPhi {
+			continue
+		}
+		if p := in.Pos(); p.IsValid() {
+			pos = p
+			break
+		}
+	}
+	name := ""
+	best := token.Pos(0)
+	ast.Inspect(t.fn.Syntax(), func(n ast.Node) bool {
+		if rs, ok := n.(*ast.RangeStmt); ok && rs.Key != nil {
+			if id, ok := rs.Key.(*ast.Ident); ok && rs.Pos() <= pos && pos <= rs.End() && rs.Pos() >= best {
+				// innermost enclosing range statement whose body contains the block's first position
+				if tv, ok := t.fn.Pkg.Prog.Fset, true; ok && tv != nil {
+					best = rs.Pos()
+					name = id.Name
+				}
+			}
+		}
+		return true
+	})
+	return name
 }
 
 func (t *FnTrans) backEdge(from, head *ssa.BasicBlock) {
@@ -850,6 +909,12 @@ func (t *FnTrans) binop(x *ssa.BinOp) {
 		}
 	case token.ADD, token.SUB, token.MUL, token.QUO, token.REM:
 		switch {
+		case isInt && t.ct != nil && t.ct.Opts["assume-no-overflow"] != "" && (x.Op == token.ADD || x.Op == token.SUB || x.Op == token.MUL):
+			// declared assumption: this function's integer arithmetic does not overflow (listed in evidence)
+			op := map[token.Token]string{token.ADD: "+", token.SUB: "-", token.MUL: "*"}[x.Op]
+			r = app(op, a, b)
+			t.assume(ii.inRange(r))
+			t.abstr["assumed: integer "+x.Op.String()+" does not overflow (opt assume-no-overflow)"] = true
 		case isInt:
 			switch x.Op {
 			case token.ADD:
@@ -1262,7 +1327,11 @@ func (t *FnTrans) makeInterface(x *ssa.MakeInterface) {
 	if v.S != "" || v.P != nil {
 		t.emit("(assert (= " + t.unbox(n, T) + " " + t.termOf(v, x.X) + "))")
 	}
-	t.vals[x] = Val{S: n, Fn: v.Fn, Bnd: v.Bnd}
+	bx := ""
+	if v.S != "" || v.P != nil {
+		bx = t.termOf(v, x.X)
+	}
+	t.vals[x] = Val{S: n, Fn: v.Fn, Bnd: v.Bnd, Box: bx}
 }
 
 func (t *FnTrans) unbox(ref string, T types.Type) string {
